@@ -380,8 +380,12 @@ def excused(rec, name, H, for_c08=False):
     if a['group'] is not None and pre.get('identity') is not None and \
             not pre['identity'] < H.groups.get(a['group'], 0):
         return 'invalid-identity'
-    if pre.get('renew'):
-        return 'renewal-requested'
+    if pre.get('renew') and a['lease']:
+        # a requested renewal excuses the loss only if it can fail: the lease no longer fits before
+        # the reboot of the server (an instance without a lease has nothing that could fail)
+        s0 = H.servers.get(pre.get('server'))
+        if s0 is None or not s0['valid_until'] or not rec['t_hi'] + a['lease'] < s0['valid_until']:
+            return 'renewal-failed'
     # re-assigned to an allocation whose partition / traits the server does
     # not offer: C03 requires it to leave ("no different than host deleted")
     s = H.servers.get(pre.get('server'))
@@ -513,7 +517,7 @@ def nontrivial_flags(rec):
     inactive_loaded = False
     pending = any(a.server is None for a in cell.apps.values())
     for sname, h in H.servers.items():
-        if h['state'] != 'up' and cell.members()[sname].apps and pending:
+        if h['state'] != 'up' and sname in cell.members() and cell.members()[sname].apps and pending:
             inactive_loaded = True
     flags['C08'] = inactive_loaded or rec.get('expired_now', False)
     ranks = {e['rank'] for q in rec['queues'] for e in q}
